@@ -209,7 +209,7 @@ def report(ctx, mism, lines, stage):
     for m in mism:
         e, bad = m["event"], m["bad"]
         if bad[0].startswith("DOC:"):
-            ctx.violation(signature(e, bad), "%s (Monitoring.tla expects the client calls %s; recorded: %s)" % (bad[0], bad[1:], json.dumps(e.get("calls"))[:600]),
+            ctx.violation(signature(e, bad), "Monitoring.tla expects the client calls %s; recorded: %s" % (bad[1:], json.dumps(e.get("calls"))[:600]),
                           dict(stage=stage, scenario=scenario_of(lines, m["index"]), event=e, spec_says=bad))
         else:
             infra.append(m)
